@@ -324,7 +324,9 @@ type c10MatrixExec struct {
 	ref *DrvRun
 }
 
-func (e *c10MatrixExec) Outcome() string { return fmt.Sprintf("err=%v out=%s", e.Err != nil, short(e.Out)) }
+func (e *c10MatrixExec) Outcome() string {
+	return fmt.Sprintf("err=%v out=%s", e.Err != nil, short(e.Out))
+}
 
 func (e *c10MatrixExec) Check(o *mc.Outcome) []Viol {
 	e.Finish()
